@@ -437,6 +437,31 @@ pub fn relational_inputs(shard: usize, nshards: usize, f: &mut dyn FnMut(&[u8]))
             }
         }
     }
+    // every length field whose low octet is 0x00 or 0xff (where a carry between the two octets of the field happens or
+    // does not), as a well-framed packet of exactly that length: an unknown type and an APP packet
+    for hi in 0..=255usize {
+        for lo in [0x00usize, 0xff] {
+            let field = hi << 8 | lo;
+            let len = 4 * (field + 1);
+            for pt in [199u8, 204] {
+                if !mine() {
+                    continue;
+                }
+                if len < 12 && pt == 204 {
+                    continue;
+                }
+                let mut v = vec![0u8; len];
+                v[0] = 0x80 | 3;
+                v[1] = pt;
+                v[2..4].copy_from_slice(&(field as u16).to_be_bytes());
+                if pt == 204 {
+                    v[8..12].copy_from_slice(b"carr");
+                }
+                f(&v);
+                n += 1;
+            }
+        }
+    }
     for len in [262_148usize, 262_152, 263_316, 525_460] {
         for &pt in &PTS_OF_INTEREST {
             for field in [0u16, 1, 6, 0x0123, 0xfffe, 0xffff, ((len / 4 - 1) & 0xffff) as u16] {
